@@ -230,10 +230,11 @@ def base_stubs():
     # is_compatible_enum itself is evaluated; only the type map behind it is modelled: E2 is declared as an alias of E1
     return {
         'Enum::alias_enum': lambda a: ('Some', ('Ok', 'E1')) if a[0] == 'E2' else ('None',),
-        # more type-map data, so that a decision that starts to depend on it is evaluated rather than lost: E1 (and its alias) is an
-        # unscoped flag enum, E3 a scoped plain one. The documented discipline depends on neither.
+        # more type-map data, so that a decision that starts to depend on it is evaluated rather than lost: E1 is an unscoped plain
+        # enum, E2 the flags type over it (as Qt::Orientation / Qt::Orientations: alias = E1, isFlag), E3 a scoped plain one. The
+        # documented discipline depends on neither.
         'Enum::is_scoped': lambda a: a[0] == 'E3',
-        'Enum::is_flag': lambda a: a[0] in ('E1', 'E2'),
+        'Enum::is_flag': lambda a: a[0] == 'E2',
         'Class::is_derived_from': lambda a: derived(a[0], a[1]),
     }
 
